@@ -32,6 +32,8 @@ def main():
         meta = json.load(open(os.path.join(d, "meta.json")))
         home = meta.get("breaks_property") or meta.get("property")
         props = [home] + [p for p in meta.get("checks_run", {}) if p != home]
+        # RESEED_ALSO=C07,C04 adds checks that were not run against this change before
+        props += [p for p in os.environ.get("RESEED_ALSO", "").split(",") if p and p not in props]
         rc, out = sh("git -C /repo apply %s" % os.path.join(d, "patch.diff"))
         if rc != 0:
             print(name, "patch does not apply:", out)
